@@ -46,7 +46,7 @@ func checkCharPassword(m *MChar, pw *PwView) (bool, string) {
 
 func checkAlphabet(c *Ctx, m *MChar, rec spg.CharRecipe, cfg CharCfg) bool {
 	res := under(NewTape(TapeSpec{Mode: "raw"}), func(r *OpResult) { r.S = rec.Alphabet() })
-	c.T(res.brief())
+	c.T(res.tkey())
 	if res.Kind != "ok" {
 		c.Violate("alphabet", "alphabet-panic", "%s: Alphabet() %s", cfg, res.brief())
 		return false
@@ -139,7 +139,7 @@ func runC03(c *Ctx, si interface{}) {
 	}
 	c.Eval(1)
 	one := func(res OpResult, how string) bool {
-		c.T(res.brief())
+		c.T(res.tkey())
 		c.Eval(1)
 		switch res.Kind {
 		case "panic":
